@@ -248,12 +248,12 @@ Proof.
 Qed.
 
 Lemma flags_remove_all : forall d,
-  d_perms (remove_all d) = d_perms d /\ d_dss (remove_all d) = false /\
+  d_perms (remove_all d) = false /\ d_perm (remove_all d) = d_perm d /\ d_dss (remove_all d) = false /\
   d_legal (remove_all d) = false /\ d_ext (remove_all d) = false /\
   d_others (remove_all d) = d_others d.
 Proof.
   intros d.
-  ra_cases d fm f rest g arr Hfm Hfs Harr; cbn [d_perms d_dss d_legal d_ext d_others]; repeat split.
+  ra_cases d fm f rest g arr Hfm Hfs Harr; cbn [d_perms d_perm d_dss d_legal d_ext d_others]; repeat split.
 Qed.
 
 Lemma pages_remove_all : forall d, wf_doc d ->
@@ -275,7 +275,7 @@ Qed.
 Lemma only_sig_probes_removed_all : forall d, wf_doc d -> only_sig_probes_removed d (remove_all d).
 Proof.
   intros d Hwf. unfold only_sig_probes_removed.
-  pose proof (flags_remove_all d) as [Hp [Hd [Hl [He Ho]]]].
+  pose proof (flags_remove_all d) as [Hp [Hpm [Hd [Hl [He Ho]]]]].
   rewrite (pages_remove_all d Hwf), apply_ops_map.
   split; [apply visible_fields_remove_all|].
   split; [rewrite map_map; reflexivity|].
@@ -377,19 +377,19 @@ Section Supported.
   Variable d : doc.
   Hypothesis Hsup : supported d = true.
 
-  Let Hparts : d_perms d = false /\ d_acro d = true /\ forallb top_ok (visible_fields d) = true /\
+  Let Hparts : d_acro d = true /\ forallb top_ok (visible_fields d) = true /\
     existsb (fun o : N * option ftype => osig (snd o) && on_some_page (d_pages d) (fst o)) (d_others d) = false /\
     widgets_reached d = true.
   Proof.
     unfold supported in Hsup.
     apply andb_true_iff in Hsup as [H1 Hw]. apply andb_true_iff in H1 as [H2 Ho].
-    apply andb_true_iff in H2 as [H3 Ht]. apply andb_true_iff in H3 as [Hp Ha].
-    apply negb_true_iff in Hp. apply negb_true_iff in Ho. repeat split; assumption.
+    apply andb_true_iff in H2 as [Ha Ht].
+    apply negb_true_iff in Ho. repeat split; assumption.
   Qed.
 
   Lemma supported_wf : wf_doc d.
   Proof.
-    destruct Hparts as [_ [Ha _]]. unfold wf_doc. destruct (d_form d); [assumption|exact I].
+    destruct Hparts as [Ha _]. unfold wf_doc. destruct (d_form d); [assumption|exact I].
   Qed.
 
   Lemma supported_pages :
@@ -401,7 +401,7 @@ Section Supported.
   Lemma removed_iff_sig : forall pg v, In pg (d_pages d) -> In v (alist (snd pg)) ->
     in_ops (all_ops (visible_fields d)) (fst pg) v = mem v (sig_ids d).
   Proof.
-    intros pg v Hpg Hv. destruct Hparts as [_ [_ [Htop [Hoth Hw]]]].
+    intros pg v Hpg Hv. destruct Hparts as [_ [Htop [Hoth Hw]]].
     destruct (mem v (sig_ids d)) eqn:Hm.
     - unfold widgets_reached in Hw. rewrite forallb_forall in Hw. specialize (Hw pg Hpg).
       rewrite forallb_forall in Hw. specialize (Hw v Hv). rewrite Hm in Hw. exact Hw.
@@ -414,8 +414,8 @@ Section Supported.
 
   Lemma supported_non_sig_unchanged : non_sig_unchanged d (remove_all d).
   Proof.
-    destruct Hparts as [_ [_ [Htop _]]].
-    pose proof (flags_remove_all d) as [_ [_ [_ [_ Ho]]]].
+    destruct Hparts as [_ [Htop _]].
+    pose proof (flags_remove_all d) as [_ [_ [_ [_ [_ Ho]]]]].
     unfold non_sig_unchanged. rewrite supported_pages.
     split; [rewrite visible_fields_remove_all; now apply forest_filter_keep|].
     split; [apply visible_fields_remove_all|].
@@ -428,8 +428,8 @@ Section Supported.
 
   Lemma supported_no_sig_left : no_sig_left d (remove_all d).
   Proof.
-    destruct Hparts as [Hperms [_ [Htop [Hoth _]]]].
-    pose proof (flags_remove_all d) as [Hp [Hd [Hl [He Ho]]]].
+    destruct Hparts as [_ [Htop [Hoth _]]].
+    pose proof (flags_remove_all d) as [Hp [Hpm [Hd [Hl [He Ho]]]]].
     pose proof supported_non_sig_unchanged as [Hforest [_ [_ [Hpages _]]]].
     assert (Hnodes : forall x, In x (forest_nodes (visible_fields (remove_all d))) -> osig (snd x) = false).
     { intros x Hx. rewrite Hforest in Hx. eapply nonsig_nodes_no_sig. exact Hx. }
@@ -456,7 +456,7 @@ Section Supported.
       { apply existsb_exists. exists o. split; [assumption|]. now rewrite Hs, Hon0. }
       congruence.
     - intros pg v Hin Hv. now destruct (Hpg pg v Hin Hv).
-    - rewrite Hp. repeat split; try assumption. apply visible_sigflags_remove_all.
+    - repeat split; try assumption. apply visible_sigflags_remove_all.
   Qed.
 End Supported.
 
